@@ -96,11 +96,15 @@ macro_rules! c07_pareto {
                 let x: $f = d.sample(&mut rng);
                 vassert!(rng.pos == 1, "Pareto: number of words consumed depends on the parameters");
                 let g: f64 = if native() {
-                    num_traits::Float::powf($oc(w0), neg_inv) as f64
+                    let mut r2 = SymRng::from_words(rng.words, NW);
+                    let z: $f = Pareto::<$f>::new(1.0, shape).unwrap().sample(&mut r2);
+                    vassert!(rng.pos == r2.pos, "Pareto: number of words consumed depends on the parameters");
+                    let want = scale * z;
+                    vassert!(x == want || (x != x && want != want), "Pareto: sample is not scale * (standard member)");
+                    return;
                 } else {
                     vassert!(flog_n() == 1, "Pareto: expected exactly one power");
                     let (b, e, g) = flog_get(0);
-                    vassert!(b == $oc(w0) as f64, "Pareto: base of the power is not the OpenClosed01 draw");
                     vassert!(e == neg_inv as f64, "Pareto: exponent is not -1/shape");
                     g
                 };
